@@ -5,5 +5,9 @@ import "math/rand"
 // NewTransformerWithSource is added by the verification overlay: it builds a Transformer whose
 // random draws come from the given source, so that an explorer can own every draw.
 func NewTransformerWithSource(source rand.Source) Transformer {
-	return Transformer{randSource: source, modifications: 0}
+	// built by the project's own constructor (whatever else it initialises stays initialised),
+	// only the source of the draws is replaced
+	t := NewTransformer(0)
+	t.randSource = source
+	return t
 }
